@@ -115,7 +115,6 @@ frecipe('QuadraticForm/vec-only', ('rn',), 'pl', [DEF + 'QuadraticForm'])(
 frecipe('QuadraticForm/scaling-op', ('rn', 'discr'), 'pl', [DEF + 'QuadraticForm'])(
     lambda ctx, sp: S.QuadraticForm(operator=odl.ScalingOperator(sp, 3.0), vector=sp.one()))
 frecipe('Huber', ALLS, 'pl', [DEF + 'Huber'])(lambda ctx, sp: S.Huber(sp, gamma=0.5))
-frecipe('Huber/pspace', ('pspace',), 'sqrt', [DEF + 'Huber'])(lambda ctx, sp: S.Huber(sp, gamma=0.5))
 frecipe('IndicatorSimplex', ('rn',), 'ind', [DEF + 'IndicatorSimplex'])(lambda ctx, sp: S.IndicatorSimplex(sp))
 frecipe('IndicatorSimplex/diam2', ('rn',), 'ind', [DEF + 'IndicatorSimplex'])(
     lambda ctx, sp: S.IndicatorSimplex(sp, diameter=2))
@@ -174,7 +173,7 @@ frecipe('derived/quotient', ('rn',), 'pl', [FUN + 'FunctionalQuotient'],
 frecipe('derived/infconv(L2sq,L1)', ('rn',), 'pl', [FUN + 'InfimalConvolution'])(
     lambda ctx, sp: S.InfimalConvolution(S.L2NormSquared(sp), S.L1Norm(sp)))
 frecipe('derived/Bregman(L2sq)', ('rn', 'discr'), 'pl', [FUN + 'BregmanDistance'])(
-    lambda ctx, sp: S.BregmanDistance(S.L2NormSquared(sp), ctx.element(sp, 't')))
+    lambda ctx, sp: _bregman_l2sq(ctx, sp))
 frecipe('derived/Bregman(L1,subgrad)', ('rn',), 'pl', [FUN + 'BregmanDistance'])(
     lambda ctx, sp: S.BregmanDistance(S.L1Norm(sp), sp.element([1.0, -2.0]), subgrad=sp.element([1.0, -1.0])))
 frecipe('derived/L1.convex_conj', ('rn', 'discr'), 'ind', [DEF + 'IndicatorLpUnitBall'])(
@@ -185,6 +184,11 @@ frecipe('derived/Huber.convex_conj', ('rn',), 'pl', [FUN + 'FunctionalQuadraticP
     lambda ctx, sp: S.Huber(sp, 0.5).convex_conj)
 frecipe('derived/default-conj(L2sq+L1)', ('rn',), 'pl', [FUN + 'FunctionalDefaultConvexConjugate'])(
     lambda ctx, sp: (S.L2NormSquared(sp) + S.L1Norm(sp)).convex_conj)
+
+def _bregman_l2sq(ctx, sp):
+    t = ctx.element(sp, 't')
+    return S.BregmanDistance(S.L2NormSquared(sp), t, subgrad=2 * t)
+
 
 NOT_ENCODABLE_F = {
     DEF + 'NuclearNorm': 'singular value decomposition is LAPACK (compiled)',
